@@ -509,3 +509,136 @@ Proof.
   eexists. eexists. split; [vm_compute; reflexivity|].
   vm_compute. intros H. discriminate H.
 Qed.
+
+(* ---- websocket JSON sub-protocol ---- *)
+Definition no_sep (c : byte) : bool := negb (beqb c "]"%byte) && negb (beqb c ","%byte).
+
+Lemma format_int_nosep z : forallb no_sep (format_int 10 z) = true.
+Proof. apply format_int_class; [apply lt16_cases; reflexivity | reflexivity]. Qed.
+
+Lemma jarr_scan_tok (t : bytes) : forall s cur acc,
+  forallb no_sep t = true -> jarr_scan (t ++ s) cur acc = jarr_scan s (rev t ++ cur) acc.
+Proof.
+  induction t as [|a t IH]; intros s cur acc H; [reflexivity|].
+  cbn [forallb] in H. apply andb_true_iff in H as [Ha Ht].
+  unfold no_sep in Ha. apply andb_true_iff in Ha as [A1 A2]. apply negb_true_iff in A1, A2.
+  cbn [app jarr_scan]. rewrite A1, A2, IH by exact Ht. cbn [rev]. rewrite <- app_assoc. reflexivity.
+Qed.
+
+Definition fmtb (c : byte) : bytes := format_int 10 (byte_z c).
+
+Lemma jarr_scan_tail (r : list byte) : forall cur acc rest,
+  jarr_scan (jints_tail r ++ "]"%byte :: rest) cur acc = Some (rev acc ++ rev cur :: map fmtb r, rest).
+Proof.
+  induction r as [|c r IH]; intros cur acc rest.
+  - cbn [jints_tail app jarr_scan map]. rewrite beqb_refl, !frev_rev. reflexivity.
+  - cbn [jints_tail app jarr_scan map]. change (beqb ","%byte "]"%byte) with false. cbn iota.
+    rewrite beqb_refl. rewrite <- app_assoc.
+    rewrite jarr_scan_tok by apply format_int_nosep. rewrite IH, frev_rev.
+    cbn [rev]. rewrite app_nil_r, rev_involutive, <- app_assoc. reflexivity.
+Qed.
+
+Lemma num_toks_fmt (l : list byte) : num_toks (map fmtb l) = Some (map byte_z l).
+Proof.
+  induction l as [|c l IH]; [reflexivity|]. cbn [map num_toks]. unfold fmtb at 1.
+  rewrite num_tok_format by apply byte_z_ok. rewrite IH. reflexivity.
+Qed.
+
+Lemma jarray_jints (ids : list byte) (tail : bytes) :
+  jarray (jints ids ++ tail) = Some (map byte_z ids, tail).
+Proof.
+  destruct ids as [|c r]; [reflexivity|].
+  unfold jints. cbn [app]. unfold jarray. rewrite beqb_refl.
+  rewrite <- !app_assoc. cbn [app].
+  rewrite jarr_scan_tok by apply format_int_nosep.
+  rewrite jarr_scan_tail. cbn [rev app]. rewrite app_nil_r, rev_involutive.
+  fold (fmtb c). change (fmtb c :: map fmtb r) with (map fmtb (c :: r)).
+  destruct (format_int_head (byte_z c)) as (h & t & E & _).
+  rewrite num_toks_fmt. cbn [map]. unfold fmtb at 1. rewrite E. reflexivity.
+Qed.
+
+Lemma append_one reg q id :
+  fst (pipe_append reg q [id]) = match reg_get reg id with Some f => q ++ [f] | None => q end.
+Proof.
+  unfold pipe_append. cbn [pipe_append_loop]. destruct (reg_get reg id) as [f|]; [|reflexivity].
+  destruct (Nat.ltb 255 (length (q ++ [f]))); reflexivity.
+Qed.
+
+Lemma append_each_loop reg (ids : list byte) : forall q p,
+  pipe_append_loop reg q ids = (p, None) ->
+  fold_left (fun p z => fst (pipe_append reg p [wrap8 z])) (map byte_z ids) q = p.
+Proof.
+  induction ids as [|id r IH]; intros q p H; cbn [pipe_append_loop] in H.
+  - inversion H. reflexivity.
+  - destruct (reg_get reg id) as [f|] eqn:E; [|discriminate].
+    cbn [map fold_left]. rewrite wrap8_byte_z, append_one, E. apply IH. exact H.
+Qed.
+
+Lemma append_each_ok reg ids p :
+  pipe_append reg [] ids = (p, None) -> append_each reg (map byte_z ids) = p.
+Proof.
+  unfold pipe_append, append_each. destruct (pipe_append_loop reg [] ids) as [q [e|]] eqn:E; [discriminate|].
+  destruct (Nat.ltb 255 (length q)); [discriminate|]. intros H; inversion H; subst q.
+  apply append_each_loop. exact E.
+Qed.
+
+Lemma msg_of_jraw_ok2 m b1 b2 xs :
+  json_ok m = true ->
+  msg_of_jraw (jraw_of m b1 xs) b2
+  = Ok (mkMsg (m_seq m) (m_mtype m) (m_method m) (m_status m) (m_meta m) (m_codec m) b2).
+Proof.
+  intros H. pose proof (msg_of_jraw_ok m b2 xs H) as E. unfold msg_of_jraw, jraw_of in *.
+  cbn [jr_seq jr_mtype jr_method jr_status jr_meta jr_codec] in *. exact E.
+Qed.
+
+Section WsJson.
+  Variable quote_hi : bytes -> bytes.
+  Variable gjson_other : bytes -> jraw.
+
+  Lemma parse_wsj_ok ids m body :
+    json_ok m = true ->
+    parse_wsj (wsj_payload quote_hi jesc_byte ids m body) = Some (jraw_of m body (map byte_z ids)).
+  Proof.
+    intros H. unfold parse_wsj, wsj_payload.
+    rewrite parse_members_ok by (auto using jesc_byte_ok). cbn [obind].
+    rewrite strip_app. cbn [obind]. rewrite jarray_jints. cbn [obind]. reflexivity.
+  Qed.
+
+  Theorem wsj_roundtrip_lemma reg lim ids p m b size :
+    (forall g, In g reg -> inverts g) ->
+    pipe_append reg [] ids = (p, None) ->
+    json_ok m = true ->
+    wsj_pack quote_hi jesc_byte lim p m = Ok (b, size) ->
+    wsj_unpack gjson_other reg lim b = Ok (m, ids, size) /\ size = sub_size lim b.
+  Proof.
+    intros Hinv Hp Hok Hpack.
+    destruct (append_ok_ids _ _ _ Hp) as (Hids & _ & _).
+    unfold wsj_pack in Hpack.
+    destruct (pipe_pack p (m_body m)) as [body|] eqn:Hpp; cbn [of_option rbind] in Hpack; [|discriminate].
+    apply Ok_inj in Hpack. apply pair_equal_spec in Hpack as [Eb Es].
+    rewrite Hids in Eb, Es. subst b size. split; [|reflexivity].
+    unfold wsj_unpack, gjson_wsj.
+    rewrite parse_wsj_ok by exact Hok. cbn [jr_xfer jr_body jraw_of].
+    rewrite (append_each_ok reg ids p Hp).
+    rewrite (registered_pipe_roundtrip reg ids p Hinv Hp _ _ Hpp). cbn [of_option rbind].
+    rewrite msg_of_jraw_ok2 by exact Hok. cbn [rbind]. rewrite msg_eta, Hids. reflexivity.
+  Qed.
+
+  (* the size reported for a websocket message is a function of that message's bytes *)
+  Lemma wsj_size_own reg lim b m ids size :
+    wsj_unpack gjson_other reg lim b = Ok (m, ids, size) -> size = sub_size lim b.
+  Proof.
+    unfold wsj_unpack. destruct (pipe_unpack _ _); cbn [of_option rbind]; [|discriminate].
+    destruct (msg_of_jraw _ _); cbn [rbind]; try discriminate.
+    intros H. apply Ok_inj in H. congruence.
+  Qed.
+End WsJson.
+
+Theorem wsj_body_v0_refuted quote_hi gjson_other :
+  exists m b size, json_ok m = true /\ wsj_pack quote_hi jesc_byte_v0 1000 [] m = Ok (b, size) /\
+                   wsj_unpack gjson_other [] 1000 b <> Ok (m, [], size).
+Proof.
+  exists (mkMsg 1 x01 (str "/a/b") status_zero [] x6a [ "a"%byte; bsl; "b"%byte ]).
+  eexists. eexists. split; [reflexivity|]. split; [vm_compute; reflexivity|].
+  vm_compute. intros H. discriminate H.
+Qed.
